@@ -59,6 +59,9 @@ type Node struct {
 	Obs
 	Container bool // non-null container
 	Kids      []*Node
+	// AfterOut is what Type / IsNull / FieldName / Annotations answered right after the StepOut that left this
+	// container, before the next Next (plain traversal: after Next had returned false).
+	AfterOut string
 }
 
 // Outcome of running a program against a Reader.
@@ -370,6 +373,25 @@ func (w *walker) level(depth int, limit int) []*Node {
 				if err := r.StepOut(); err != nil {
 					w.fail("StepOut", err)
 				}
+				// the reader's answers between StepOut and the next Next
+				ao := Obs{Depth: depth, Type: r.Type().String(), Null: r.IsNull()}
+				if fn, err := r.FieldName(); err == nil && fn != nil {
+					ao.Field = tokStr(fn)
+				} else if err != nil {
+					ao.Field = "error"
+				}
+				if as, err := r.Annotations(); err == nil {
+					ao.Annots = annStr(as)
+				} else {
+					ao.Annots = "error"
+				}
+				node.AfterOut = "after-stepout:" + ao.Line(false)
+				w.out.Lines = append(w.out.Lines, node.AfterOut)
+				if d.Refused&(2|16) != 0 {
+					// calls the reader must refuse here (there is no current value): results ignored
+					r.StepIn()
+					w.wrongAccessors(ion.NoType, true)
+				}
 			}
 			if w.build {
 				nodes = append(nodes, node)
@@ -577,6 +599,7 @@ func (e *expecter) level(nodes []*Node, depth int, limit int) {
 			lim = d.K
 		}
 		e.level(n.Kids, depth+1, lim)
+		e.lines = append(e.lines, n.AfterOut)
 	}
 	if limit >= 0 && count >= limit {
 		return
